@@ -696,6 +696,22 @@ class ConstraintsIntersection(AbstractConstraintSet):
         for constraint in self._values:
             constraint(value, idx)
 
+    def isSuperTypeOf(self, otherConstraint):
+        if AbstractConstraintSet.isSuperTypeOf(self, otherConstraint):
+            return True
+
+        # whatever imposes every operand of an intersection imposes
+        # the intersection (`+` flattens, so a derived constraint set
+        # holds the operands of its parent, not the parent itself)
+        otherValueMap = otherConstraint.getValueMap()
+
+        for constraint in self._values:
+            if (constraint and constraint != otherConstraint and
+                    constraint not in otherValueMap):
+                return False
+
+        return True
+
 
 class ConstraintsUnion(AbstractConstraintSet):
     """Create a ConstraintsUnion logic operator object.
